@@ -598,4 +598,60 @@ mutual
       rw [Cond.assign_eq r x, assignAll_eq _ xs]
 end
 
+/-! ### the F3 pattern, as the harness decides it -/
+
+/-- finding F3's pattern over a whole chain: some derivation occurs after an Attrs/Assign call with a
+    non-empty argument list (`seen` = such a call has already occurred) -/
+def f3Pattern : Bool → List Step → Bool
+  | _, [] => false
+  | seen, st :: rest => (st.isDeriv && seen) || f3Pattern (seen || st.setsInit) rest
+
+theorem f3_seen_no_deriv : ∀ steps : List Step, f3Pattern true steps = false →
+    steps.filter (fun st => !st.isDeriv) = steps := by
+  intro steps
+  induction steps with
+  | nil => intro _; rfl
+  | cons st rest ih =>
+    intro h
+    simp only [f3Pattern, Bool.and_true, Bool.true_or, Bool.or_eq_false_iff] at h
+    simp [List.filter, h.1, ih h.2]
+
+theorem deriv_stmt {cfg : CloneCfg} (hc : cfg.clauses = true) {h : Handle} (hp : h.stmt.plain) {d : Step}
+    (hd : d.isDeriv = true) : (h.step cfg d).stmt = h.stmt := by
+  cases d <;> simp_all [Handle.step, Step.isDeriv, cloneStmt_plain hc hp]
+
+theorem deriv_not_setsInit {d : Step} (hd : d.isDeriv = true) : d.setsInit = false := by
+  cases d <;> simp_all [Step.isDeriv, Step.setsInit]
+
+theorem finish_run_outside_pattern {cfg : CloneCfg} (hc : cfg.clauses = true) (sch : Schema) (s : Store) (f : Fin) :
+    ∀ (steps : List Step) (h1 h2 : Handle), h1.stmt = h2.stmt → h1.stmt.plain → h1.Inv → h2.Inv →
+      f3Pattern false steps = false →
+      finish cfg sch s (h1.run cfg steps) f = finish cfg sch s (h2.run cfg (steps.filter (fun st => !st.isDeriv))) f := by
+  intro steps
+  induction steps with
+  | nil => intro h1 h2 hs hp hi1 hi2 _; exact finish_agree hc sch s hs hp hi1 hi2 f
+  | cons st rest ih =>
+    intro h1 h2 hs hp hi1 hi2 hpat
+    simp only [f3Pattern, Bool.and_false, Bool.false_or] at hpat
+    cases hd : st.isDeriv with
+    | true =>
+      have hns := deriv_not_setsInit hd
+      rw [hns] at hpat
+      simp only [List.filter, hd, Bool.not_true]
+      show finish cfg sch s ((h1.step cfg st).run cfg rest) f = _
+      have hs' : (h1.step cfg st).stmt = h2.stmt := (deriv_stmt hc hp hd).trans hs
+      exact ih _ h2 hs' (by rw [deriv_stmt hc hp hd]; exact hp) (step_inv cfg h1 st) hi2 hpat
+    | false =>
+      simp only [List.filter, hd, Bool.not_false]
+      show finish cfg sch s ((h1.step cfg st).run cfg rest) f = finish cfg sch s ((h2.step cfg st).run cfg _) f
+      rw [step_agree hc hs hp hi1 hi2 st]
+      cases hsi : st.setsInit with
+      | true =>
+        rw [hsi] at hpat
+        rw [f3_seen_no_deriv rest hpat]
+      | false =>
+        rw [hsi] at hpat
+        have hp2 : (h2.step cfg st).stmt.plain := step_plain cfg (hs ▸ hp) hsi
+        exact ih _ _ rfl hp2 (step_inv cfg h2 st) (step_inv cfg h2 st) hpat
+
 end Gorm.Upsert
